@@ -36,10 +36,14 @@ import (
 type c03Fault struct {
 	// clean | drop-data | delay-data | dup-data | delay-close | drop-close | dup-close |
 	// drop-data+drop-close | latency |
-	// stall      (UDP) from the moment Close() is called nothing is delivered in either direction for
-	//            DelayMs, then everything, in order (a delay spike on a path that was fast before);
-	// tcp-stall  (TCP) the closing direction of the connection makes no progress until DelayMs after
-	//            Close() was called (a peer that stopped draining its receive buffer for a while);
+	// stall      (UDP) from the moment the writer starts its last Write nothing is delivered in either
+	//            direction for DelayMs, then everything, in order (a delay spike on a path that was fast
+	//            before: the window cannot open, part of the last chunk is still queued at Close);
+	// tcp-stall  (TCP) the closing direction of the connection makes no progress until DelayMs after a
+	//            loop of 1500 one-millisecond sleeps started at the Close() call has finished (a peer that
+	//            stopped draining its receive buffer for longer than Close's bounded wait);
+	// drop-inflight (UDP) the first data datagram transmitted for the first time after Write has returned
+	//            is lost (with CloseAfterFault: Close is called while it is in flight);
 	// idle       (UDP) every transmission of data segment Seq and every close request of the closing
 	//            direction is lost, for ever: the reader hears nothing any more
 	// tcp-reset  (TCP, characterisation only — not a fault the property quantifies over) the connection is
@@ -92,7 +96,7 @@ const c03ServerAddr = "10.8.0.1:8964"
 
 // c03Plan builds the fault plan. It decodes every datagram of the closing direction with the
 // reference codec to find the addressed segment.
-func c03Plan(k c03Case, keys [][]byte, line *c03DelayLine, closeReturned *atomic.Bool, closeAt *atomic.Int64, faultHit *atomic.Bool) func(d *simnet.Datagram) []simnet.Delivery {
+func c03Plan(k c03Case, keys [][]byte, line *c03DelayLine, closeReturned *atomic.Bool, closeAt *atomic.Int64, faultHit *atomic.Bool, armed *atomic.Bool) func(d *simnet.Datagram) []simnet.Delivery {
 	var mu sync.Mutex
 	seenSeq := map[uint32]bool{}
 	closeSeen := 0
@@ -111,7 +115,7 @@ func c03Plan(k c03Case, keys [][]byte, line *c03DelayLine, closeReturned *atomic
 			return nil
 		}
 		if f.Kind == "stall" {
-			// nothing is delivered from the moment Close() is called until `delay` later; from then on
+			// nothing is delivered from the moment the last Write starts until `delay` later; from then on
 			// everything goes through the FIFO line so that nothing overtakes what was held back
 			ca := closeAt.Load()
 			if ca == 0 {
@@ -139,6 +143,19 @@ func c03Plan(k c03Case, keys [][]byte, line *c03DelayLine, closeReturned *atomic
 				d.Fate = "drop"
 				faultHit.Store(true)
 				return nil
+			}
+			return []simnet.Delivery{{}}
+		}
+		if f.Kind == "drop-inflight" {
+			// the first data datagram that is transmitted for the first time after Write returned
+			if numbered && !seenSeq[seg.Seq] && armed.Load() && !faultHit.Load() {
+				seenSeq[seg.Seq] = true
+				d.Fate = "drop"
+				faultHit.Store(true)
+				return nil
+			}
+			if numbered {
+				seenSeq[seg.Seq] = true
 			}
 			return []simnet.Delivery{{}}
 		}
@@ -247,12 +264,12 @@ func c03Exec(k c03Case) *c03Outcome {
 		return o
 	}
 	o.world = w
-	var closeReturned, faultHit atomic.Bool
+	var closeReturned, faultHit, armed atomic.Bool
 	var closeAt atomic.Int64
 	if k.UDP && k.Fault.Kind != "clean" && k.Fault.Kind != "" {
 		line := newC03DelayLine(w.Net)
 		defer line.stop()
-		w.Net.Plan = c03Plan(k, w.AllKeys(), line, &closeReturned, &closeAt, &faultHit)
+		w.Net.Plan = c03Plan(k, w.AllKeys(), line, &closeReturned, &closeAt, &faultHit, &armed)
 	}
 	if !k.UDP {
 		o.tap = newC03StreamTap(w.Net.T0(), !k.ServerCloses, k.Fault.Kind == "tcp-stall")
@@ -307,12 +324,16 @@ func c03Exec(k c03Case) *c03Outcome {
 			time.Sleep(150 * time.Millisecond)
 			rest = data[k.Warm:]
 		}
+		if k.Fault.Kind == "stall" {
+			closeAt.Store(time.Now().UnixNano()) // the plan's stall starts here
+		}
 		n, err := conn.Write(rest)
 		o.Written += n
 		if err != nil {
 			o.WriteErr = err.Error()
 		}
 		if k.CloseAfterFault {
+			armed.Store(true)
 			for dl := time.Now().Add(200 * time.Millisecond); !faultHit.Load() && time.Now().Before(dl); {
 				time.Sleep(200 * time.Microsecond)
 			}
@@ -320,7 +341,7 @@ func c03Exec(k c03Case) *c03Outcome {
 		o.closeCall = nDatagrams()
 		tc := time.Now()
 		o.closeCallAt = tc.Sub(w.Net.T0())
-		closeAt.Store(tc.UnixNano())
+		closeAt.CompareAndSwap(0, tc.UnixNano())
 		if o.tap != nil {
 			delay := time.Duration(k.Fault.DelayMs) * time.Millisecond
 			o.tap.closeCalled(delay)
@@ -459,6 +480,7 @@ type c03Wire struct {
 	// transmitted when the first close request was emitted, and how many HIGHER sequence numbers were
 	// transmitted for the first time after its first transmission and before that close request
 	LostSeq, LostTx, LaterFirstTx int
+	LaterRetxMax                  int   // most transmissions, before the first close request, of one segment first sent after LostSeq
 	ReaderIdleMs                  int64 // reader's EOF minus the last datagram handed to its endpoint
 }
 
@@ -596,6 +618,9 @@ func c03AnalyseUDP(k c03Case, o *c03Outcome) *c03Wire {
 		for sq, idx := range firstTxIdx {
 			if int(sq) > a.LostSeq && idx > firstTxIdx[uint32(a.LostSeq)] && idx < firstCloseIdx {
 				a.LaterFirstTx++
+				if txBeforeClose[sq] > a.LaterRetxMax {
+					a.LaterRetxMax = txBeforeClose[sq]
+				}
 			}
 		}
 	}
@@ -725,12 +750,15 @@ func c03Run(c *core.Ctx, k c03Case) {
 					fk = "C03/udp/reader-idle-timeout-clean-eof"
 				}
 				detail = fmt.Sprintf("; no close request or response ever reached the reader's endpoint: its session was closed locally %d ms after the last datagram it was handed (idleSessionTimeout = 60 s → RemoveSession → graceful s.Close()), and Read reported a clean io.EOF", wa.ReaderIdleMs)
-			case len(wa.LostBefore) > 0 && wa.LostTx <= 1 && wa.LaterFirstTx >= 2*(16+wa.LostSeq)+16:
-				// the sender cannot have more than cwnd ≤ minWindowSize + (segments acknowledged so far)
-				// segments outstanding: with an unacknowledged segment s it stalls after at most 15 + s
-				// further first transmissions until s has been retransmitted and acknowledged
+			case k.Fault.Kind == "drop-inflight" && len(wa.LostBefore) > 0 && wa.LostTx <= 1 && (wa.LaterRetxMax >= 3 || wa.LaterFirstTx >= 16+wa.LostSeq+2):
+				// Only in the dedicated case (fresh session, warmed-up path, the injected loss is the first
+				// one, so the sender is in slow start): (1) the congestion window is minWindowSize + one per
+				// acknowledged segment, so with segment s unacknowledged at most 15 + s later segments can be
+				// transmitted for the first time before s has been retransmitted and acknowledged;
+				// (2) retransmission timers run per segment from its own transmission time: a later segment
+				// cannot time out twice before the earlier, still unacknowledged one has timed out once.
 				fk = "C03/udp/lost-data-not-retransmitted-while-sending"
-				detail = fmt.Sprintf("; segment %d was lost on its first transmission and never retransmitted although %d later segments were transmitted for the first time before the close request went out (a sender with that segment unacknowledged stalls after at most %d)", wa.LostSeq, wa.LaterFirstTx, 15+wa.LostSeq)
+				detail = fmt.Sprintf("; segment %d was lost on its first transmission and never retransmitted before the close request went out, although %d later segments were transmitted for the first time in between (a sender with that segment in its send buffer stalls after at most %d) and one of them %d times (Close() took %v)", wa.LostSeq, wa.LaterFirstTx, 15+wa.LostSeq, wa.LaterRetxMax, o.closeTook.Round(time.Millisecond))
 			case len(wa.LostBefore) > 0:
 				fk = "C03/udp/data-lost-or-overtaken-before-close"
 				detail = fmt.Sprintf("; segments %v of the closing direction were transmitted but had not reached the reader when the close request did", wa.LostBefore)
@@ -773,6 +801,20 @@ func c03Run(c *core.Ctx, k c03Case) {
 			lens = strings.Join(ls, ",")
 		}
 		reply := c.Model.Ask("close-udp L:%s %s R:%d:%s", lens, strings.Join(wa.Tokens, " "), o.Got, final)
+		if os.Getenv("VH_DEBUG") != "" && (k.CloseAfterFault || k.Fault.Kind == "stall") {
+			if len(wa.LostBefore) > 0 {
+				k.Fault.Seq = wa.LostBefore[0]
+			}
+			var brief []string
+			for _, t := range wa.Tokens {
+				if t == "C" || t == "X" || strings.HasPrefix(t, "cs") || t == "cd" || strings.HasPrefix(t, fmt.Sprintf("s:%d:", k.Fault.Seq)) || strings.HasPrefix(t, fmt.Sprintf("d:%d:", k.Fault.Seq)) {
+					brief = append(brief, t)
+				} else if strings.HasPrefix(t, "s:") {
+					brief = append(brief, "s")
+				}
+			}
+			fmt.Fprintf(os.Stderr, "c03u %s n=%d fault=%+v closeTook=%v lost=%v tx=%d later=%d laterRetx=%d: %s -> %s\n", dir, k.N, k.Fault, o.closeTook.Round(time.Millisecond), wa.LostBefore, wa.LostTx, wa.LaterFirstTx, wa.LaterRetxMax, strings.Join(brief, " "), reply)
+		}
 		c03Compare(c, k, reply, violated, "udp")
 		if wa.LateData > 0 {
 			c.Disagree("C03/corr/data-transmitted-after-close-returned", fmt.Sprintf("%d data datagrams of the closed session were emitted more than 50 ms after Close() returned", wa.LateData), k)
@@ -800,6 +842,9 @@ func c03Run(c *core.Ctx, k c03Case) {
 		}
 		c.Compared()
 		wreply := c.Model.Ask("close-tcpw %s", strings.Join(wtoks, " "))
+		if os.Getenv("VH_DEBUG") != "" {
+			fmt.Fprintf(os.Stderr, "c03w %s %s n=%d fault=%s closeTook=%v: %s -> %s\n", tr, dir, k.N, k.Fault.Kind, o.closeTook.Round(time.Millisecond), strings.Join(wtoks, " "), wreply)
+		}
 		wf := strings.Fields(wreply)
 		switch {
 		case len(wf) < 4 || wf[0] != "ok":
@@ -930,23 +975,24 @@ func genC03(r *rand.Rand, thorough bool) []c03Case {
 		mk(true, sc, n, c03Fault{Kind: "dup-close"})
 		mk(true, sc, n, c03Fault{Kind: "drop-close"})
 		mk(true, sc, n, c03Fault{Kind: "drop-data+drop-close", Seq: nseg})
-		// a datagram lost IN FLIGHT at Close with several congestion windows of data queued behind it,
-		// on a path that has round-trip samples: the sender must retransmit it before its window lets
-		// the close request out
-		warm := 20 * c03FragmentSize(1400, true)
-		k := mk(true, sc, warm+200000, c03Fault{Kind: "drop-data", Seq: 20 + 3})
+		// Two cases on a path that has round-trip samples (two fragments written and acknowledged first)
+		// with the last Write one full chunk (26 fragments — more than the congestion window of 16 + 3
+		// lets out at once, so part of it is still queued, with the close request behind it, at Close):
+		// (a) the first datagram of that chunk is lost in flight — the sender must retransmit it before
+		// its window lets the rest and the close request out; (b) a 600 ms delay spike starts with that
+		// Write, shorter than Close's bounded wait.
+		warm := 2 * c03FragmentSize(1400, true)
+		k := mk(true, sc, warm+32768, c03Fault{Kind: "drop-inflight"})
 		k.MTU, k.Warm, k.CloseAfterFault, k.MaxRead, k.ClientPattern, k.ServerPattern = 1400, warm, true, 65536, nil, nil
-		// a delay spike at Close on a path that was fast before, shorter than the bounded wait
-		k = mk(true, sc, warm+200000, c03Fault{Kind: "stall", DelayMs: 600})
+		k = mk(true, sc, warm+32768, c03Fault{Kind: "stall", DelayMs: 600})
 		k.MTU, k.Warm, k.MaxRead, k.ClientPattern, k.ServerPattern = 1400, warm, 65536, nil, nil
 	}
-	// stream transport: the connection makes no progress until 1.7 s after Close() (longer than the
-	// bounded wait) with the open request / response and the data still unsent; 1025 = smallest write that
+	// stream transport: the connection makes no progress until well after the bounded wait of Close() with the open request / response and the data still unsent; 1025 = smallest write that
 	// is not piggybacked on the open request, 32768 = one full segment (a second chunk would make Write
 	// itself wait for oLock until the stall is over)
 	for _, sc := range []bool{false, true} {
 		for _, n := range []int{1025, 20000, 32768} {
-			k := mk(false, sc, n, c03Fault{Kind: "tcp-stall", DelayMs: 1700})
+			k := mk(false, sc, n, c03Fault{Kind: "tcp-stall", DelayMs: 500})
 			k.ClientPattern, k.ServerPattern = nil, nil
 		}
 	}
@@ -1011,7 +1057,7 @@ func c03LoadCorpus(c *core.Ctx) []c03Case {
 func init() {
 	core.Register("C03", &core.Scenario{
 		Run: func(c *core.Ctx) {
-			c.Res.Rule = "each case: one transport (TCP / UDP with MTU from {1280,1281,1400,1499,1500}), one direction (client closes / server closes), d of n bytes with n in {1, 1024, one fragment -1/0/+1, 10 KiB, 32 KiB(+1) on TCP, 1 MiB (thorough)}, optional random traffic patterns, the application writes d and calls Close immediately, the peer reads with random read sizes until EOF / error / 20 s bound; UDP fault plans address the datagrams in flight at close, deterministically on every run: first transmission of data segment 1 / 2 / last-1 / last dropped / delayed (overtaken by the close request) / duplicated, close request delayed / duplicated / dropped, data dropped and close dropped, a datagram lost in flight at Close with several congestion windows queued behind it on a warmed-up path, a 600 ms delay spike starting at Close on a warmed-up path; TCP: the closing direction stalled until 1.7 s after Close with open request/response and data unsent (n = 1025, 20000, 32768); thorough: random positions, 1 MiB, and one 65 s case in which the reader hears nothing any more (idle timeout); corpus replays first. Oracle: bytes read = d or the final error is not io.EOF (reader still blocked at the bound is counted separately). Distinct = distinct case JSON."
+			c.Res.Rule = "each case: one transport (TCP / UDP with MTU from {1280,1281,1400,1499,1500}), one direction (client closes / server closes), d of n bytes with n in {1, 1024, one fragment -1/0/+1, 10 KiB, 32 KiB(+1) on TCP, 1 MiB (thorough)}, optional random traffic patterns, the application writes d and calls Close immediately, the peer reads with random read sizes until EOF / error / 20 s bound; UDP fault plans address the datagrams in flight at close, deterministically on every run: first transmission of data segment 1 / 2 / last-1 / last dropped / delayed (overtaken by the close request) / duplicated, close request delayed / duplicated / dropped, data dropped and close dropped, on a warmed-up path with a last Write larger than the congestion window: its first datagram lost in flight at Close, and a 600 ms delay spike starting with that Write; TCP: the closing direction stalled until well after the bounded wait of Close (1500 x 1 ms + 0.5 s) with open request/response and data unsent (n = 1025, 20000, 32768); thorough: random positions, 1 MiB, and one 65 s case in which the reader hears nothing any more (idle timeout); corpus replays first. Oracle: bytes read = d or the final error is not io.EOF (reader still blocked at the bound is counted separately). Distinct = distinct case JSON."
 			c.Correspondence("observed close histories (application calls, every datagram / stream segment decoded by harness/wire) accepted by the Lean close model (close-udp / close-tcp) and reader outcome predicted by it")
 			var cases []c03Case
 			cases = append(cases, c03LoadCorpus(c)...)
